@@ -19,6 +19,8 @@ func init() {
 }
 
 func runC05(r *Run, p *Prog) {
+	// K9: struct / enum discrimination of a parenthesised list
+	siblingRules(r, p, "C06", []string{"Q8"}, "K9")
 	m, why := buildIDLModel(p)
 	if m == nil {
 		r.Unresolved("K1", why)
